@@ -1508,6 +1508,19 @@ def loop_target_unpacking(tree):
                             uses = [n for n in ast.walk(fn) if isinstance(n, ast.Name) and n.id == x and n is not st.value and not any(n is t_ for t_ in ast.walk(l.target))]
                             before = {n.id for b in l.body[:j] for n in ast.walk(b) if isinstance(n, ast.Name)}
                             bound_elsewhere = [n for n in ast.walk(fn) if isinstance(n, ast.Name) and n.id in names and isinstance(n.ctx, ast.Store) and not any(n is t_ for t_ in ast.walk(st))]
+                            # further reads of X inside the loop body (after an unpacking that is the first statement; X and a, b, c not re-bound in the body, X not read
+                            # after the loop) are reads of the tuple (a, b, c)
+                            body_ids = {id(n) for b in l.body for n in ast.walk(b)}
+                            if uses and j == 0 and all(id(n) in body_ids and isinstance(n.ctx, ast.Load) for n in uses) \
+                                    and not any(isinstance(n, ast.Name) and n.id in names | {x} and isinstance(n.ctx, (ast.Store, ast.Del)) for b in l.body[1:] for n in ast.walk(b)):
+                                class _R(ast.NodeTransformer):
+                                    def visit_Name(self, node):
+                                        if node.id == x and isinstance(node.ctx, ast.Load):
+                                            return ast.copy_location(ast.Tuple(elts=[ast.Name(id=e.id, ctx=ast.Load()) for e in st.targets[0].elts], ctx=ast.Load()), node)
+                                        return node
+                                l.body[1:] = [_R().visit(b) for b in l.body[1:]]
+                                uses = []
+                                bound_elsewhere = []
                             if not uses and not (before & (names | {x})) and not bound_elsewhere:
                                 new_t = ast.Tuple(elts=[ast.Name(id=e.id, ctx=ast.Store()) for e in st.targets[0].elts], ctx=ast.Store())
                                 if tgt_holder[0] == 'direct':
@@ -1734,6 +1747,7 @@ def normalize(tree):
     n.counts['prologue_decorators'] = n_dec
     n.counts['iterate_self'] = iterate_self(tree)
     n.counts['quantifiers_over_literals'] = quantifiers_over_literals(tree)
+    n.counts['print_to_write'] = print_to_write(tree)
     n.counts['filled_arrays'] = filled_arrays_to_fromiter(tree)
     n.counts['partials'] = partials_to_calls(tree)
     n.counts['zip_of_maps'] = zip_of_maps(tree)
@@ -2049,6 +2063,39 @@ def quantifiers_over_literals(tree, max_items=6):
                     if len(terms) == 1:
                         return ast.copy_location(terms[0], n)
                     return ast.copy_location(ast.BoolOp(op=ast.Or() if n.func.id == 'any' else ast.And(), values=terms), n)
+            return n
+    T().visit(tree)
+    ast.fix_missing_locations(tree)
+    return count
+
+
+def print_to_write(tree):
+    """N52: `print(a, b, sep='\t', file=F)` (constant separator / end, no starred argument) is `F.write(f'{a}\t{b}\n')`"""
+    count = 0
+
+    class T(ast.NodeTransformer):
+        def visit_Call(self, n):
+            nonlocal count
+            self.generic_visit(n)
+            if isinstance(n.func, ast.Name) and n.func.id == 'print' and n.args and not any(isinstance(a, ast.Starred) for a in n.args):
+                kw = {k.arg: k.value for k in n.keywords}
+                if 'file' in kw and set(kw) <= {'file', 'sep', 'end'} and all(isinstance(kw[k_], ast.Constant) and isinstance(kw[k_].value, str) for k_ in ('sep', 'end') if k_ in kw):
+                    sep = kw['sep'].value if 'sep' in kw else ' '
+                    end = kw['end'].value if 'end' in kw else '\n'
+                    vals = []
+                    for i, a in enumerate(n.args):
+                        if i:
+                            vals.append(ast.Constant(value=sep))
+                        vals.append(a if isinstance(a, ast.Constant) and isinstance(a.value, str) else ast.FormattedValue(value=a, conversion=-1, format_spec=None))
+                    vals.append(ast.Constant(value=end))
+                    merged = []
+                    for v in vals:
+                        if isinstance(v, ast.Constant) and merged and isinstance(merged[-1], ast.Constant):
+                            merged[-1] = ast.Constant(value=merged[-1].value + v.value)
+                        else:
+                            merged.append(v)
+                    count += 1
+                    return ast.copy_location(ast.Call(func=ast.Attribute(value=kw['file'], attr='write', ctx=ast.Load()), args=[ast.JoinedStr(values=merged)], keywords=[]), n)
             return n
     T().visit(tree)
     ast.fix_missing_locations(tree)
